@@ -844,6 +844,8 @@ class Exec:
         if isinstance(base, ClsV):
             mi = base.ci.find_method(attr)
             if mi is not None:
+                if mi.kind == "classmethod":
+                    return FuncV(mi, recv=base)         # cls is bound to the class the method was looked up on
                 return FuncV(mi)
             if attr in base.ci.inner:
                 return ClsV(base.ci.inner[attr])
@@ -1453,6 +1455,9 @@ class Exec:
             return
         if isinstance(t, ast.Subscript):
             base = self.ev(t.value, fr)
+            if isinstance(base, OpaqueV) and self.opaque_mode():
+                self.ev(t.slice, fr)
+                return                          # a store into an opaque container: nothing tracked depends on it
             sq = self.seq(base)
             if sq is None:
                 raise Unsupported("subscript store on non-sequence")
@@ -1899,10 +1904,18 @@ Exec.for_opaque = _for_opaque
 
 
 def _simple_getter(fi):
-    """a property whose body is `return self.<attr>`: inlined even where calls are opaque"""
+    """a property whose body is `return self.<attr>` or a comparison / boolean test over self's attributes:
+    inlined even where calls are opaque"""
     body = [st for st in fi.body() if not (isinstance(st, ast.Expr) and isinstance(st.value, ast.Constant))]
-    return len(body) == 1 and isinstance(body[0], ast.Return) and isinstance(body[0].value, ast.Attribute) \
-        and isinstance(body[0].value.value, ast.Name) and body[0].value.value.id == "self"
+    if len(body) != 1 or not isinstance(body[0], ast.Return) or body[0].value is None:
+        return False
+    # `return <expression over self's attributes>`: no calls, no names other than self
+    for n in ast.walk(body[0].value):
+        if isinstance(n, (ast.Call, ast.Lambda, ast.ListComp, ast.GeneratorExp, ast.JoinedStr, ast.BinOp)):
+            return False
+        if isinstance(n, ast.Name) and n.id not in ("self", "None", "True", "False"):
+            return False
+    return True
 
 
 def _preorder(node):
